@@ -57,6 +57,18 @@ CHECKS = {
         design_ref="DESIGN.md 2.1, 5 (C05)", note=PIPE_NOTE,
         technique="TLC model checking of recorded strategy networks + replay of every instance on the real code",
         engine="tlc"),
+    "C14": dict(
+        category="model_checking",
+        text="Report() of every strategy (base, compound, decorated) x configurations x n beyond the warm-up: the network recorded "
+             "from the real code, closed with the report template as its consumer (Template process: a date, then one value from "
+             "every column, a closed column yields a zero), is model checked by TLC: ColumnsBalanced (no column ran out, nothing "
+             "left in any channel, all processes done) and ColAligned (value in the row of date d computed for date d or a warm-up "
+             "fill). Every instance is rendered by the real Report.WriteToWriter; column channels are inspected for left-over "
+             "values, goroutines counted, and each printed row compared per date with the closing price, normalised action and "
+             "portfolio outcome computed independently; model-reported late columns are confirmed by perturbation renders.",
+        design_ref="DESIGN.md 2.1, 5 (C14)", note=PIPE_NOTE,
+        technique="TLC model checking of recorded report networks with a Template consumer + real renders inspected by reflection",
+        engine="tlc"),
     "C17": dict(
         category="model_checking",
         text="TLC checks exhaustively (finite state space, all histories) that the implementation-shaped Ring and Bst of "
